@@ -1,8 +1,213 @@
-(* C12 — stub, replaced below *)
-From Coq Require Import ZArith List.
-From EC Require Import Lib.Outcome Model.Handshake Model.Pool.
+(* C12 — Connections are attributed only to authenticated, expected, unique peers.
+   Statements only; proofs in Proofs/HandshakeProofs.v and Proofs/PoolProofs.v.
+
+   Reading guide.  Keys, genesis hashes and session ids are integers.  [SSig k sid] is the only
+   value that verifies as a signature of key k over "SessionId sid" (H-SIG).  A session id belongs
+   to one session with its two ends [true]/[false] (H-SID).  [honest : Z -> bool] says which
+   secret keys the adversary lacks; [run honest [] acts = Some tr] says that [acts] is a sequence
+   of node and adversary moves that respects H-ADV (every message the adversary delivers carries,
+   for an honest key, only a signature some honest endpoint emitted before); it is quantified
+   universally, so the theorems cover every message the adversary can produce and every
+   interleaving.  Pool operations are atomic (H-ATOM), so a concurrent execution is a list. *)
+From Coq Require Import ZArith List Bool.
+From EC Require Import Lib.Outcome Lib.U64 Model.Handshake Model.Pool
+  Proofs.HandshakeProofs Proofs.PoolProofs.
 Import ListNotations.
 Open Scope Z_scope.
-Example C12_stub : gossip_inbound 0 0 RClosed = Err EStream.
-Proof. reflexivity. Qed.
-Print Assumptions C12_stub.
+
+(* ---- handshake_sound, the four decision functions ----
+   Ok K only if the received message names this very session, announces our genesis, and carries
+   the signature of K over this session's id; outbound: K is the dialled key. *)
+Theorem C12_sound_gossip_outbound : forall own_sid gen peer r K,
+  gossip_outbound own_sid gen peer r = Ok K ->
+  (exists h, r = RMsg h /\ m_sid h = own_sid /\ m_gen h = gen /\ m_key h = K /\ m_sig h = SSig K own_sid)
+  /\ K = peer.
+Proof. exact gossip_outbound_sound. Qed.
+Print Assumptions C12_sound_gossip_outbound.
+
+Theorem C12_sound_gossip_inbound : forall own_sid gen r K,
+  gossip_inbound own_sid gen r = Ok K ->
+  exists h, r = RMsg h /\ m_sid h = own_sid /\ m_gen h = gen /\ m_key h = K /\ m_sig h = SSig K own_sid.
+Proof. exact gossip_inbound_sound. Qed.
+Print Assumptions C12_sound_gossip_inbound.
+
+Theorem C12_sound_validator_outbound : forall own_sid gen peer r K,
+  validator_outbound own_sid gen peer r = Ok K ->
+  (exists h, r = RMsg h /\ m_sid h = own_sid /\ m_gen h = gen /\ m_key h = K /\ m_sig h = SSig K own_sid)
+  /\ K = peer.
+Proof. exact validator_outbound_sound. Qed.
+Print Assumptions C12_sound_validator_outbound.
+
+Theorem C12_sound_validator_inbound : forall own_sid gen r K,
+  validator_inbound own_sid gen r = Ok K ->
+  exists h, r = RMsg h /\ m_sid h = own_sid /\ m_gen h = gen /\ m_key h = K /\ m_sig h = SSig K own_sid.
+Proof. exact validator_inbound_sound. Qed.
+Print Assumptions C12_sound_validator_inbound.
+
+(* ---- handshake_sound on the system ----
+   In every reachable trace: an endpoint that returned Ok K was configured to expect K if it
+   dialled; and if K is honest then K itself ran an endpoint of this same session and emitted its
+   signature over this session's id there. *)
+Theorem C12_handshake_sound : forall honest acts tr sid side K,
+  run honest [] acts = Some tr -> In (EvDone sid side (Ok K)) tr ->
+  (exists c, In (EvOpen sid side c) tr /\ (forall p, e_role c = ROut p -> K = p)) /\
+  (honest K = true ->
+   exists side' c' m, In (EvOpen sid side' c') tr /\ e_key c' = K /\
+     In (EvEmit sid side' m) tr /\ m_sig m = SSig K sid /\
+     (side' <> side \/ exists c, In (EvOpen sid side c) tr /\ e_role c = ROut K /\ e_key c = K)).
+Proof. exact sound_sys. Qed.
+Print Assumptions C12_handshake_sound.
+
+(* ... and it is the REMOTE end that signed, for every accepting endpoint and for every connecting
+   endpoint that did not dial its own key (the loopback dial is the one case where a node's own
+   message, reflected, is attributed to the node itself). *)
+Theorem C12_remote_end_signed : forall honest acts tr sid side K c,
+  run honest [] acts = Some tr -> In (EvDone sid side (Ok K)) tr -> honest K = true ->
+  In (EvOpen sid side c) tr -> (e_role c = RIn \/ e_key c <> K) ->
+  exists c' m, In (EvOpen sid (negb side) c') tr /\ e_key c' = K /\
+               In (EvEmit sid (negb side) m) tr /\ m_sig m = SSig K sid.
+Proof. exact sound_remote. Qed.
+Print Assumptions C12_remote_end_signed.
+
+(* honest nodes sign nothing but the id of the session they are an endpoint of *)
+Theorem C12_honest_signs_own_sessions : forall honest acts tr sid side m,
+  run honest [] acts = Some tr -> In (EvEmit sid side m) tr ->
+  exists c, In (EvOpen sid side c) tr /\ m_sig m = SSig (e_key c) sid /\ m_gen m = e_gen c.
+Proof. exact honest_signs_own_sessions. Qed.
+Print Assumptions C12_honest_signs_own_sessions.
+
+(* ---- replay_refused ----
+   A message carrying a signature made for another session id is refused by all four functions,
+   whatever its other fields (id field rewritten, genesis, key, is_static changed). *)
+Theorem C12_replay_refused : forall c own_sid h k sid' K,
+  m_sig h = SSig k sid' -> sid' <> own_sid -> decide c own_sid (RMsg h) <> Ok K.
+Proof. exact foreign_signature_refused. Qed.
+Print Assumptions C12_replay_refused.
+
+(* the same for anything recorded on a reachable trace: whatever was emitted on session sid' is
+   useless on any other session, even with every other field altered *)
+Theorem C12_recorded_transcript_refused : forall honest acts tr sid' side' m,
+  run honest [] acts = Some tr -> In (EvEmit sid' side' m) tr ->
+  forall c sid h K, sid <> sid' -> m_sig h = m_sig m -> decide c sid (RMsg h) <> Ok K.
+Proof. exact replay_refused_sys. Qed.
+Print Assumptions C12_recorded_transcript_refused.
+
+(* ---- relay_refused ----
+   A man in the middle has its own sessions with both victims (H-SID: their ids differ from any
+   session the honest key K is an endpoint of).  On a session where K runs no endpoint, no
+   endpoint ever attributes the connection to K, whatever the adversary relays or injects. *)
+Theorem C12_relay_refused : forall honest acts tr sid K,
+  run honest [] acts = Some tr -> honest K = true ->
+  (forall side c, In (EvOpen sid side c) tr -> e_key c <> K) ->
+  forall side, ~ In (EvDone sid side (Ok K)) tr.
+Proof. exact relay_refused_sys. Qed.
+Print Assumptions C12_relay_refused.
+
+(* malformed input (closed stream, oversized or undecodable frame) is refused, never a panic *)
+Theorem C12_malformed_refused : forall c own_sid K, decide c own_sid RClosed <> Ok K.
+Proof. exact closed_refused. Qed.
+Print Assumptions C12_malformed_refused.
+
+Theorem C12_decision_never_panics : forall c own_sid r x, decide c own_sid r <> Panic x.
+Proof. exact decide_no_panic. Qed.
+Print Assumptions C12_decision_never_panics.
+
+(* ---- handshake_complete ----
+   Two honest ends of one session, same genesis, the dialled key being the acceptor's: both
+   return Ok with each other's key (an enabled run exists, so the theorems above are not vacuous). *)
+Theorem C12_handshake_complete : forall honest sid cout cin,
+  e_role cout = ROut (e_key cin) -> e_role cin = RIn -> e_gen cout = e_gen cin ->
+  let m1 := own_msg cout sid (static_flag cout (e_key cin)) in
+  let m2 := own_msg cin sid (static_flag cin (e_key cout)) in
+  exists tr, run honest [] [AOpen sid true cout; AOpen sid false cin;
+                            ADeliver sid false (RMsg m1); ADeliver sid true (RMsg m2)] = Some tr /\
+    In (EvDone sid false (Ok (e_key cout))) tr /\ In (EvDone sid true (Ok (e_key cin))) tr.
+Proof. exact complete_run. Qed.
+Print Assumptions C12_handshake_complete.
+
+(* ---- pool_inv ----  every sequence of inserts and removes, any allowed set, any usize limit *)
+Theorem C12_pool_inv : forall allowed limit ops, 0 <= limit <= u64_max ->
+  let p := prun (pool_new allowed limit) ops in
+  NoDup (p_current p) /\ p_extra p = extras p /\ extras p <= limit /\
+  p_allowed p = allowed /\ p_limit p = limit.
+Proof. exact pool_inv_thm. Qed.
+Print Assumptions C12_pool_inv.
+
+(* insert fails iff the key is present or (not allowed and the quota is used up); it never
+   panics; on success exactly the key is added; remove of an absent key changes nothing *)
+Theorem C12_pool_step : forall allowed limit ops, 0 <= limit <= u64_max ->
+  let p := prun (pool_new allowed limit) ops in
+  forall k,
+    (insert k p = Err EExists <-> In k (p_current p)) /\
+    (insert k p = Err ELimit <-> ~ In k (p_current p) /\ ~ In k allowed /\ limit <= extras p) /\
+    (forall x, insert k p <> Panic x) /\
+    (forall p', insert k p = Ok p' -> p_current p' = k :: p_current p) /\
+    (exists p', remove k p = Ok p' /\ p_current p' = removez k (p_current p) /\
+                (~ In k (p_current p) -> p' = p)).
+Proof. exact pool_step_thm. Qed.
+Print Assumptions C12_pool_step.
+
+(* ---- one_per_direction ----
+   Any interleaving of connection attempts (with whatever handshake result) and disconnects on one
+   pool (= one direction of one network): never a panic; the live connections have pairwise
+   different identities and are exactly the pool's contents; the non-configured ones stay within
+   the quota; every live connection (c, k) went through a handshake that returned Ok k. *)
+Theorem C12_one_per_direction : forall allowed limit ops, 0 <= limit <= u64_max ->
+  exists g, grun (ginit allowed limit) ops = Ok g /\
+    NoDup (map fst (g_live g)) /\ NoDup (map snd (g_live g)) /\
+    (forall k, In k (p_current (g_pool g)) <-> In k (map snd (g_live g))) /\
+    NoDup (p_current (g_pool g)) /\ extras (g_pool g) <= limit /\
+    p_allowed (g_pool g) = allowed /\
+    (forall c k, In (c, k) (g_live g) -> In (GConn c (Ok k)) ops).
+Proof. exact one_per_direction_thm. Qed.
+Print Assumptions C12_one_per_direction.
+
+(* ---- validator_pool_members_only ----  allowed = committee, extra_limit = 0 *)
+Theorem C12_validator_pool_members_only : forall committee ops,
+  exists g, grun (validator_inbound_pool committee) ops = Ok g /\
+    (forall k, In k (p_current (g_pool g)) -> In k committee) /\
+    (forall c k, In (c, k) (g_live g) -> In k committee).
+Proof. exact members_only_thm. Qed.
+Print Assumptions C12_validator_pool_members_only.
+
+(* the outbound validator pool and the outbound gossip pool are the same construction *)
+Theorem C12_pools_same_construction : forall l,
+  validator_outbound_pool l = validator_inbound_pool l /\ gossip_outbound_pool l = validator_inbound_pool l.
+Proof. intros l. split; reflexivity. Qed.
+Print Assumptions C12_pools_same_construction.
+
+(* ---- non-vacuity: a man in the middle, computed ----
+   Keys 1 and 2 are honest, 9 is the adversary's.  Node 1 dials node 2 but reaches the adversary
+   (session 10); the adversary dials node 2 (session 20) and relays node 1's message: refused
+   (session id mismatch).  Rewriting the id field: signature error.  Speaking for itself with key 9
+   it is accepted as 9, never as 1.  The run is enabled, so the theorems talk about real runs. *)
+Example C12_nonvacuous :
+  let honest := fun k => negb (k =? 9) in
+  let a := {| e_net := Gossip; e_key := 1; e_gen := 0; e_role := ROut 2; e_statics := [] |} in
+  let b := {| e_net := Gossip; e_key := 2; e_gen := 0; e_role := RIn; e_statics := [] |} in
+  let m1 := own_msg a 10 false in
+  exists tr,
+    run honest [] [AOpen 10 true a; AOpen 20 false b; AOpen 21 false b; AOpen 22 false b;
+                   ADeliver 20 false (RMsg m1);
+                   ADeliver 21 false (RMsg {| m_sid := 21; m_key := 1; m_sig := m_sig m1; m_gen := 0; m_static := false |});
+                   ADeliver 22 false (RMsg {| m_sid := 22; m_key := 9; m_sig := SSig 9 22; m_gen := 0; m_static := false |})]
+      = Some tr /\
+    In (EvDone 20 false (Err ESessionIdMismatch)) tr /\
+    In (EvDone 21 false (Err ESignature)) tr /\
+    In (EvDone 22 false (Ok 9)) tr /\
+    (* answering node 1 in the name of node 2 needs node 2's signature over id 10, which nobody
+       emitted: not an enabled adversary move *)
+    step honest tr (ADeliver 10 true (RMsg {| m_sid := 10; m_key := 2; m_sig := SSig 2 10; m_gen := 0; m_static := false |})) = None.
+Proof.
+  eexists. split; [vm_compute; reflexivity|]. cbn [In].
+  split; [tauto|]. split; [tauto|]. split; [tauto|]. vm_compute. reflexivity.
+Qed.
+Print Assumptions C12_nonvacuous.
+
+Example C12_pool_nonvacuous :
+  exists g, grun (gossip_inbound_pool [1; 2] 1)
+                 [GConn 100 (Ok 1); GConn 101 (Ok 1); GConn 102 (Ok 7); GConn 103 (Ok 8);
+                  GConn 104 (Err ESignature); GDisc 101; GDisc 102; GConn 105 (Ok 8)] = Ok g /\
+            g_live g = [(105, 8); (100, 1)] /\ p_current (g_pool g) = [8; 1].
+Proof. eexists. split; [vm_compute; reflexivity|]. split; reflexivity. Qed.
+Print Assumptions C12_pool_nonvacuous.
